@@ -77,18 +77,25 @@ THEOREMS = [
     "Pyribs.C19.step_full_lr",
     "Pyribs.C19.mean_in_hull",
     "Pyribs.C19.mean_single",
+    "Pyribs.C19.effGrad_no_l2",
+    "Pyribs.C19.l2_pulls_toward_origin",
+    "Pyribs.C19.effGrad_sub",
+    "Pyribs.C19.adam_first_step_dir",
+    "Pyribs.C19.adam_first_tell",
     "Pyribs.C19.restart_iff",
     "Pyribs.C19.restart_recentres",
     "Pyribs.C19.no_restart_keeps_counters",
     "Pyribs.C19.nonvacuous",
     "Pyribs.C19.nonvacuous_gop",
     "Pyribs.C19.nonvacuous_gop_bounded",
+    "Pyribs.C19.nonvacuous_adam_l2",
 ]
 RULE = ("random call sequences over ask_dqd / tell_dqd / ask / tell (also before any gradients, repeated, and with "
         "mis-shaped Jacobians), archive additions and clears, for solution dimension 1..4, measure dimension 1..3, "
         "batch 1..5; Jacobians dyadic random, zero, rank-one, with zero rows; normalisation on/off; selection rule "
         "mu/filter; restart rule basic / no_improvement / every k; scripted check_stop; feedback (status) vectors "
-        "including all-zero ones; gradient optimizer spy / gradient_ascent / adam. Strata: gae-exact (un-normalised, "
+        "including all-zero ones; gradient optimizer spy / gradient_ascent / adam (grad_opt_kwargs l2_coeff in {0, 1/100, 1/2, 10}, lr in "
+        "{1/8, 1/20, 1/100}). Strata: gae-exact (un-normalised, "
         "<= 1 parent: bit-exact), gae-rounded (normalised and/or several parents, adam), gae-zero-parents (nothing "
         "inserted under every restart rule), gae-refusal (calls before gradients), gop (GradientOperatorEmitter, "
         "measure gradients on/off, isotropic / iso_line_dd, solution bounds none / box / wide / one-sided mix / tight / "
@@ -101,11 +108,21 @@ PARTIAL = [
     "supplied norm",
     "recombination weights (log(np + 1/2) - log(i), normalised) are supplied; the theorems need only that they are "
     "non-negative and sum to one (mean_in_hull); their exact values belong to C18's CMA weight model",
-    "Adam's update rule is C18's; here only the sign of its first step after a reset is monitored",
+    "Adam: the model carries the L2 term (effGrad) and the first step after a reset in closed form "
+    "(theta + lr*e/(|e| + eps'), e = mean - theta - l2_coeff*theta, eps' = eps/sqrt(1-beta2) supplied); later steps "
+    "(moment estimates, square roots) are held to a harness-side restatement of the documented rule within 1e-8, with "
+    "coordinates whose second-moment estimate is below 1e-6 excluded as a tie zone; the full rule is C18's",
+    "a restart that is due while the archive is still empty raises IndexError from sample_elites (after the counter "
+    "and theta moved); the property's restart clause ('re-centres on a current elite') presupposes a non-empty archive "
+    "whenever a restart is due, as C10's quantifier does -- modelled as an explicit error outcome, not a violation",
     "GradientOperatorEmitter defines no tell of its own (inherits the no-op): the refusal clause is applied to its "
     "ask only",
 ]
 ASSUMPTIONS = [
+    "a negative sigma_g in GradientOperatorEmitter is invalid input (a negative step size / standard deviation); the "
+    "generators use sigma_g > 0 and no clause is read on negative values",
+    "grad_opt_kwargs reach the optimizer unchanged (l2_coeff in {0, 1/100, 1/2, 10} with lr in {1/8, 1/20, 1/100}); "
+    "Adam's other hyper-parameters stay at their documented defaults (beta1 0.9, beta2 0.999, epsilon 1e-8)",
     "GradientOperatorEmitter's coefficient noise is reproduced from the seed (np.random.default_rng(seed), the "
     "ask_dqd draws first, then normal(0, sigma_g, (batch, 1 + measure_dim)) per ask)",
     "the elite a restart re-centres on is replayed by sample_elites(1) on a deep copy of the archive taken just "
@@ -244,6 +261,31 @@ def make_spies():
     return SpyES, SpyRanker, SpyOpt
 
 
+class RefAdam:
+    """The documented optimizer, restated: Adam (Kingma & Ba) on the *descent* gradient -g + l2_coeff * theta,
+    i.e. gradient ascent on f(theta) - l2_coeff/2 * |theta|^2 (the L2 term pulls theta TOWARD the origin)."""
+
+    def __init__(self, n, lr, l2, beta1=0.9, beta2=0.999, eps=1e-8):
+        self.n, self.lr, self.l2, self.b1, self.b2, self.eps = n, lr, l2, beta1, beta2, eps
+        self.reset()
+
+    def reset(self):
+        self.m = np.zeros(self.n)
+        self.v = np.zeros(self.n)
+        self.t = 0
+
+    def step(self, theta, g):
+        d = -np.asarray(g, dtype=np.float64) + self.l2 * theta
+        self.t += 1
+        a = self.lr * np.sqrt(1 - self.b2**self.t) / (1 - self.b1**self.t)
+        self.m = self.b1 * self.m + (1 - self.b1) * d
+        self.v = self.b2 * self.v + (1 - self.b2) * (d * d)
+        return theta - a * self.m / (np.sqrt(self.v) + self.eps)
+
+
+ADAM_EPS_PRIME = Fraction(float(1e-8 / np.sqrt(1 - 0.999)))   # eps / sqrt(1 - beta2): supplied to the model
+
+
 def rank_weights(k):
     """the recombination weights the emitter computes for k parents (same formula, float64)"""
     w = np.log(k + 0.5) - np.log(np.arange(1, k + 1))
@@ -290,11 +332,15 @@ def run_gae(case, ctx):
 
     x0 = [float(Fraction(v)) for v in case["x0"]]
     eps = float(Fraction(case["eps"]))
+    l2 = float(Fraction(case.get("l2", "0")))
+    gkw = {"l2_coeff": l2} if (okind == "adam" and "l2" in case) else None
     em = GradientArborescenceEmitter(arch, x0=x0, sigma0=1.0, lr=lr, ranker=mk_rk, es=mk_es,
                                      grad_opt=mk_opt if okind == "spy" else {"ascent": "gradient_ascent",
                                                                              "adam": "adam"}[okind],
+                                     grad_opt_kwargs=gkw,
                                      selection_rule=case["sel"], restart_rule=case["rule"], batch_size=batch,
                                      normalize_grad=case["norm"], epsilon=eps, seed=case["seed"])
+    ref_adam = RefAdam(n, lr, l2) if okind == "adam" else None
     es, rk = hold["es"], hold["rk"]
     drv = Driver("dqd")
     try:
@@ -497,16 +543,48 @@ def run_gae(case, ctx):
                                     if lr == 1 and not close(b, c, sc, False)[0]:
                                         return Failure("oracle", f"{where}: lr=1 but theta' is not the weighted mean")
                                 if okind == "adam" and adam_fresh:
+                                    # first step after a reset: every coordinate moves along the ascent gradient of
+                                    # f(theta) - l2/2 |theta|^2, i.e. along (mean - theta) - l2 * theta
                                     for k in range(n):
-                                        d, g = b[k] - a[k], c[k] - a[k]
-                                        if abs(g) > TOL * sc * 1024 and d * g <= 0:
-                                            return Failure("oracle", f"{where}: first Adam step moves theta[{k}] away "
-                                                           f"from the mean")
+                                        d, g = b[k] - a[k], (c[k] - a[k]) - Fraction(l2) * a[k]
+                                        if abs(g) > Fraction(1, 1000) * sc and d * g <= 0:
+                                            return Failure("oracle", f"{where}: first Adam step (l2_coeff={l2}) moves "
+                                                           f"theta[{k}] {float(a[k])} -> {float(b[k])}, against the "
+                                                           f"ascent gradient (mean - theta) - l2*theta = {float(g)}")
                                 ctx.count("gae:step")
+                # ---- oracle (Adam): the documented update rule, L2 regulariser included, on every step
+                eff = None
+                if okind == "adam" and have_grad and res != "err runtime" and npar > 0:
+                    w_ = rank_weights(npar)
+                    par_ = [frow(sols[perm[r]]) for r in range(npar)]
+                    mean_ = [sum(fr(w_[r]) * par_[r][k] for r in range(npar)) for k in range(n)]
+                    eff = [(mean_[k] - fr(th0[k])) - Fraction(l2) * fr(th0[k]) for k in range(n)]
+                    want = ref_adam.step(th0, np.array([float(mean_[k]) - th0[k] for k in range(n)]))
+                    if res == "ok" and em.restarts == rst0:
+                        for k in range(n):
+                            tolk = 1e-8 * max(1.0, abs(th0[k]), abs(want[k]))
+                            if ref_adam.v[k] == 0:
+                                bad = th1[k] != th0[k]
+                            elif np.sqrt(ref_adam.v[k]) < 1e-3:
+                                ctx.count("gae:adam-coordinate-in-tie-zone")
+                                continue
+                            else:
+                                bad = abs(th1[k] - want[k]) > tolk
+                            if bad:
+                                return Failure("oracle", f"{where}: Adam step {ref_adam.t} since the last reset "
+                                               f"(lr={lr}, l2_coeff={l2}): theta[{k}] {th0[k]!r} -> {th1[k]!r}, the "
+                                               f"documented rule (ascent on f - l2/2 |theta|^2) gives {want[k]!r}")
+                        ctx.count("gae:adam-step-checked" + (":l2>0" if l2 > 0 else ""))
+                if okind == "adam" and have_grad and res == "ok" and em.restarts != rst0:
+                    ref_adam.reset()
                 # ---- model
                 wts = [] if npar == 0 else [fr(v) for v in rank_weights(npar)]
                 ext = "-"
-                if okind == "adam":
+                adam_model_first = okind == "adam" and adam_fresh
+                if adam_model_first:
+                    # Adam's first step after a reset: the model computes it itself (closed form with the L2 term)
+                    ext = f"adam1:{q(Fraction(lr))}:{q(Fraction(l2))}:{q(ADAM_EPS_PRIME)}"
+                elif okind == "adam":
                     ext = rowtok(frow(th1))
                 mres = drv.ask(
                     f"gae tell status={','.join(map(str, status)) or '-'} ranking={','.join(map(str, perm)) or '-'} "
@@ -537,6 +615,16 @@ def run_gae(case, ctx):
                 mth = [Fraction(t) for t in st["theta"].split(",")]
                 if have_grad and okind == "adam" and res != "ok":
                     pass  # theta after a failed restart under Adam is not predicted
+                elif adam_model_first and have_grad and npar > 0 and em.restarts == rst0:
+                    # closed form vs float Adam: continuous except near a vanishing gradient (tie zone excluded)
+                    for k in range(n):
+                        if eff[k] != 0 and abs(eff[k]) < Fraction(1, 1000):
+                            ctx.count("gae:adam-coordinate-in-tie-zone")
+                            continue
+                        if abs(fr(th1[k]) - mth[k]) > Fraction(1, 10**9) * max(1, abs(mth[k])):
+                            return Failure("corr", f"{where}: first Adam step theta[{k}] impl={th1[k]!r} "
+                                           f"model={float(mth[k])!r} (theta + lr*e/(|e| + eps'), e = mean - theta - l2*theta)")
+                    ctx.count("gae:adam-first-step-vs-model")
                 else:
                     ok, w = close(frow(th1), mth, scale_of(mth, frow(th0)), exact and npar <= 1)
                     if not ok:
@@ -819,7 +907,8 @@ def gen_gae(rng, stratum):
     exact = stratum in ("gae-exact", "gae-zero-parents", "gae-refusal")
     norm = (rng.random() < 0.6) if stratum == "gae-rounded" else False
     if stratum == "gae-rounded":
-        opt = rng.choice(["spy:1/2", "spy:1", "spy:3/10", "ascent:1/4", "ascent:1/10", "adam:1/8", "adam:1/100"])
+        opt = rng.choice(["spy:1/2", "spy:1", "spy:3/10", "ascent:1/4", "ascent:1/10", "adam:1/8", "adam:1/100",
+                          "adam:1/20"])
     else:
         opt = rng.choice(["spy:1/2", "spy:1", "spy:1/4", "spy:3/4", "ascent:1/2", "ascent:1/4", "ascent:1"])
     rule = rng.choice(["basic", "no_improvement", 1, 2, 3])
@@ -833,6 +922,9 @@ def gen_gae(rng, stratum):
             "eps": rng.choice(["1/1024", "1/100000000"]),
             "x0": [rng.choice(["1", "-1", "1/2", "3", "-5/4", "2"]) for _ in range(n)],
             "seed": rng.randrange(1 << 30), "aseed": rng.randrange(1 << 30)}
+    if opt.startswith("adam"):
+        # grad_opt_kwargs={"l2_coeff": c}: none, small, moderate, large (the regulariser dominates)
+        case["l2"] = rng.choice(["0", "1/100", "1/2", "10"])
     ops = []
     if rng.random() < 0.8 or stratum == "gae-zero-parents":
         ops.append(gen_arch_add(rng, n, md))
